@@ -464,7 +464,7 @@ def run_history(hid, rng, sccache, model_fn, port, verdict, n_ops, known_ids):
             verdict.count('direct.rc=%d' % direct[0])
             if direct[2]:
                 verdict.count('direct.stderr-nonempty')
-            replay = {'history': hid, 'compiler': compiler, 'preprocessor_cache_mode': direct_mode, 'args': args,
+            replay = {'history': hid, 'n_ops': n_ops, 'compiler': compiler, 'preprocessor_cache_mode': direct_mode, 'args': args,
                       'env': envx, 'note': note, 'log': log[-12:]}
             diffs = describe_diff(direct, wrapped)
             if diffs and not expect_known and preprocess_failure_class(direct, wrapped):
@@ -660,11 +660,13 @@ def run_history(hid, rng, sccache, model_fn, port, verdict, n_ops, known_ids):
                     a = [x for x in base if x != '-c' and not x.endswith('.o') and x != '-o'] + ['-fsyntax-only']
                 do_compile('pass-through ' + which, args=a)
             elif op == 'known':
-                which = rng.choice(['C01-S21', 'C01-S23', 'C01-S24'])
+                which = rng.choice(['C01-S21', 'C01-S23', 'C01-S24', 'C01-S33'])
                 if which == 'C01-S21':
                     a = ['-c', fl.src, '-Iinc', '-Iinc2', '-x', 'c++' if not cxx else 'c', '-o', 'k.o']
                 elif which == 'C01-S23':
                     a = ['-c', fl.src, '-Iinc', '-Iinc2', '-MT', 'x', '-o', 'k.o']
+                elif which == 'C01-S33':
+                    a = ['-c', fl.src, '-Iinc', '-Iinc2', '-DWARN', '-Wall', '-Werror', '-o', 'k.o']
                 else:
                     a = ['-c', fl.src, '-Iinc', '-Iinc2', '-o', 'k.o', '-I']
                 do_compile('witness of ' + which, args=a, expect_known=which)
